@@ -374,6 +374,9 @@ class ReadModifyWriteRequestPacket(SendUnitDataRequestPacket):
         if not 0 <= bit < self._mask_size * 8:
             raise RequestError(f"Invalid bit number {bit} for data type {self.data_type!r}")
 
+        if isinstance(value, (list, tuple)) and len(value) == 1:
+            value = value[0]  # a one-element slice (``bools[i]{1}``) written with a one-item list
+
         if value:
             self._or_mask |= 1 << bit
             self._and_mask |= 1 << bit
